@@ -26,7 +26,7 @@ def body(ck, F, cfg):
     I = A["I"]
     ck.fn(AN.H.P_VER + "verification_scalars")
     ck.fn(AN.H.P_VER + "verify_and_return_transcript")
-    msms = [m for m in I.msm_log if m["fn"].endswith("verify_and_return_transcript")]
+    msms = list(I.msm_log)  # the run interprets verify_and_return_transcript only: its whole dynamic extent counts (the check may live in a helper)
     if len(msms) != 1:
         ck.fail("R04.1", "single-msm", f"expected one combined check, found {len(msms)}")
         return
